@@ -168,6 +168,11 @@ func c17Configs(tier string) []c17cfg {
 			cfgs = append(cfgs, c17cfg{cmd: x[0], pre: x[1], scripts: []pscript{ok}, to: 0, flapOld: f})
 		}
 	}
+	// a second command on the SAME service while a pause with twice the drain timeout is still draining: it is bound by its
+	// own timeouts, not by the first command's (return time not compared with the reference, only the bound)
+	for _, x := range []string{"stop", "pause", "deploy"} {
+		cfgs = append(cfgs, c17cfg{cmd: x, pre: "active", scripts: []pscript{ok}, inflight: []string{"never"}, to: 0, during: "pause-long"})
+	}
 	// commands on another service (and list) while a pause/stop of s1 is waiting out its drain timeout
 	for _, d := range []string{"pause", "stop"} {
 		for _, x := range []string{"remove-other", "deploy-other", "list", "deploy-new"} {
@@ -309,6 +314,8 @@ func c17Scenario(c c17cfg) *Scenario {
 			vsched.GoTagged("cmd", func() {
 				if c.during == "pause" {
 					w.Pause("s1", to.D, 20*time.Second)
+				} else if c.during == "pause-long" {
+					w.Pause("s1", 2*to.D, 20*time.Second)
 				} else {
 					w.Stop("s1", to.D, "down")
 				}
@@ -437,7 +444,7 @@ func c17Scenario(c c17cfg) *Scenario {
 		if wantErr && cmd.Err != nil && c.cmd != "deploy-conflict" && !errors.Is(cmd.Err, ErrorTargetFailedToBecomeHealthy) {
 			vs = append(vs, Violation{"C17", "unexpected-error-class", cmd.Err.Error()})
 		}
-		if cmd.End != expect {
+		if cmd.End != expect && c.during != "pause-long" {
 			sig := "returned-late"
 			if cmd.End < expect {
 				sig = "returned-early"
